@@ -226,6 +226,30 @@ async fn observe(env: &Env, cfg: &str, token: &str, exp_abs: Option<i64>) -> Val
     json!({"got": got.0, "err": got.1, "http": http, "reg": reg})
 }
 
+/// The router's answer to a request whose Authorization header is `authz` (None: no header at all).
+async fn router_status(env: &Env, cfg: &str, authz: Option<String>) -> Value {
+    let body = RegisterSnapTunIdentityRequest { initiator_static_x25519: vec![9u8; 32], psk_share: vec![0u8; 32] }.encode_to_vec();
+    let mut b = axum::http::Request::builder()
+        .method("POST")
+        .uri("/anapaya.snap.v1.SnapControl/RegisterSnapTunIdentity")
+        .header("content-type", "application/proto");
+    if let Some(a) = authz {
+        let Ok(hv) = axum::http::HeaderValue::from_str(&a) else { return Value::Null };
+        b = b.header("authorization", hv);
+    }
+    let mut req = b.body(Body::from(body)).unwrap();
+    req.extensions_mut().insert(ConnectInfo(SocketAddr::from(([127, 0, 0, 1], 4242))));
+    let router = if cfg == "jwks" { env.r_jwks.clone() } else { env.r_static.clone() };
+    env.reg.calls.lock().unwrap().clear();
+    let resp = tokio::task::spawn(async move { router.oneshot(req).await }).await;
+    let status = match resp {
+        Ok(Ok(r)) => json!(r.status().as_u16()),
+        Ok(Err(_)) => json!("error"),
+        Err(_) => json!("panic"),
+    };
+    json!({"status": status, "registered": !env.reg.calls.lock().unwrap().is_empty()})
+}
+
 // ------------------------------------------------------------------------------------------
 // concretisation of a feature record
 // ------------------------------------------------------------------------------------------
@@ -564,6 +588,16 @@ async fn replay(inp: &str, outp: &str) {
                 None => unreal += 1,
                 Some((tok, exp_abs)) => {
                     let mut o = observe(&env, &cfg, &tok, exp_abs).await;
+                    if row["must"] == "accept" && k == 0 {
+                        // a valid token presented in any other way than as a Bearer credential
+                        o["hdrvars"] = json!({
+                            "none": router_status(&env, &cfg, None).await,
+                            "basic": router_status(&env, &cfg, Some(format!("Basic {tok}"))).await,
+                            "bare": router_status(&env, &cfg, Some(tok.clone())).await,
+                            "lower": router_status(&env, &cfg, Some(format!("bearer {tok}"))).await,
+                            "twice": router_status(&env, &cfg, Some(format!("Bearer Bearer {tok}"))).await,
+                        });
+                    }
                     o["token"] = json!(tok);
                     obs.push(o);
                 }
